@@ -182,6 +182,9 @@ def _execute(prog, plan=None, rnd=None, switch_prob=0.0, files=None, pct=None):
                                 getattr(ws, name)(call[1], compress=call[2])
                             elif name == 'close':
                                 ws.close(*call[1:])
+                            elif name == 'abandon':
+                                # this thread is the one that iterates the connection: it stops (break / close())
+                                g.close()
                             else:
                                 getattr(ws, name)(*call[1:])
                             rec['ok'] = True
